@@ -17,7 +17,9 @@ Inductive scheme := SPlain | SMd5 | SSha256 | SSha512 | SBcrypt.
 Inductive vres := VTrue | VFalse | VValueError | VRaise.
 
 (* the file as open(..., encoding="utf-8") sees it *)
-Inductive ftext := FMissing | FUndecodable | FText (t : pystr).
+(* FMissing: os.stat fails;  FUnreadable: open() raises OSError (EACCES, EIO, a directory ...) while os.stat works;
+   FUndecodable: UnicodeDecodeError while reading *)
+Inductive ftext := FMissing | FUndecodable | FUnreadable | FText (t : pystr).
 Record hfile := { f_text : ftext; f_size : N; f_mtime : N }.
 
 Definition table := list (pystr * pystr).     (* dict login -> digest, insertion order *)
@@ -79,6 +81,7 @@ Definition read_file (init has_bcrypt : bool) (f : hfile) : read_res :=
   match f_text f with
   | FMissing => if init then RError else RRaise
   | FUndecodable => RRaise
+  | FUnreadable => if init then RError else ROk [] 0     (* the OSError is caught: empty dict, nobody authenticates *)
   | FText t =>
       match read_lines init has_bcrypt (file_lines t) [] 0 with
       | None => RError
